@@ -8,6 +8,7 @@ package c08
 // capacity is read again.
 
 import (
+	"context"
 	"fmt"
 	"math"
 	"strings"
@@ -19,6 +20,35 @@ import (
 	plugintypes "github.com/projecteru2/core/resource/plugins/types"
 	resourcetypes "github.com/projecteru2/core/resource/types"
 )
+
+// capFake is a second resource plugin answering from a table: it reports the
+// entries of [answer] for the requested nodes, and its CalculateDeploy admits a
+// count iff it is at most admit[node] (0 when absent).  A well-behaved plugin
+// has answer = the nodes with admit > 0; the harness also builds ill-behaved
+// ones (an entry with capacity 0).
+type capFake struct {
+	*faulty
+	answer map[string]plugintypes.NodeDeployCapacity
+	admit  map[string]int
+}
+
+func (f *capFake) Name() string { return "capfake" }
+func (f *capFake) GetNodesDeployCapacity(_ context.Context, nodes []string, _ resourcetypes.RawParams) (*plugintypes.GetNodesDeployCapacityResponse, error) {
+	m := map[string]*plugintypes.NodeDeployCapacity{}
+	for _, n := range nodes {
+		if v, ok := f.answer[n]; ok {
+			v := v
+			m[n] = &v
+		}
+	}
+	return &plugintypes.GetNodesDeployCapacityResponse{NodeDeployCapacityMap: m}, nil
+}
+func (f *capFake) CalculateDeploy(ctx context.Context, node string, count int, raw resourcetypes.RawParams) (*plugintypes.CalculateDeployResponse, error) {
+	if count > f.admit[node] {
+		return nil, errInjected
+	}
+	return f.faulty.CalculateDeploy(ctx, node, count, raw)
+}
 
 func coqFNdc(v *plugintypes.NodeDeployCapacity) string {
 	return fmt.Sprintf("(mkNdc %s %s %s %s)", vh.Z(int64(v.Capacity)), vh.F64(v.Usage), vh.F64(v.Rate), vh.F64(v.Weight))
@@ -221,4 +251,163 @@ func TestC07(t *testing.T) {
 		}
 	}
 	r.Finish("1-3 nodes (1-8 cores, whole or odd shares, 0/2/3 NUMA nodes) with 0-3 prior allocations each; request bound (cpu 0.25-9, memory 0-3000) or memory-only (memory 0 = unlimited, 1-100000; cpu up to more than the node has); Manager.Alloc probed with capacity-1, capacity, capacity+1 and 1 (each accepted probe rolled back); for memory-only requests k<=3 instances are committed and the capacity re-read. non-trivial = at least one node offered")
+
+	// ---- second stream: the manager with cpumem AND a second plugin answering from a table ----
+	r2 := vh.New(t, "C07", "capacity2")
+	r2.Coq("From Verif Require Import Base.GoFloat Cpumem.Types Cobalt.Merge Cobalt.Capacity.\nClose Scope Z_scope.", "Capacity.capcase2", "Capacity.agree2", "Capacity.ok2")
+	r2.Shard = 40
+	g2 := gen{r2}
+	w2 := newWorld(t, 100, -1)
+	fake := &capFake{faulty: &faulty{}}
+	w2.mgr.AddPlugins(fake)
+
+	emit2 := func(kind string, specs []nodeSpec, prior int, opts resourcetypes.RawParams, reqKind string, otherKind string) {
+		guarded(r2, func() {
+			fake.answer, fake.admit = map[string]plugintypes.NodeDeployCapacity{}, map[string]int{}
+			names := []string{}
+			for _, s := range specs {
+				n := w2.addNode(s)
+				names = append(names, n)
+				defer w2.mgr.RemoveNode(w2.ctx, n) //nolint
+				// while the node is being filled the second plugin admits everything
+				fake.admit[n] = math.MaxInt64
+				for i := 0; i < prior; i++ {
+					o, _ := g2.allocOpts(false)
+					w2.mgr.Alloc(w2.ctx, n, 1+g2.intn(2), resourcetypes.Resources{pluginName: o}) //nolint
+				}
+			}
+			// the second plugin's table
+			unfilteredZero := false
+			fake.admit = map[string]int{}
+			for _, n := range names {
+				c := 0
+				switch otherKind {
+				case "empty": // no capacity on any node
+				case "all":
+					c = []int{1, 2, 3, 5, 50, math.MaxInt64}[g2.intn(6)]
+				case "some":
+					if g2.chance(0.5) {
+						c = []int{1, 2, 3, 5, 50, math.MaxInt64}[g2.intn(6)]
+					}
+				case "unfiltered-zero": // ill-behaved: reports an entry with capacity 0
+					c = []int{0, 0, 2, 5}[g2.intn(4)]
+				}
+				fake.admit[n] = c
+				if c > 0 || otherKind == "unfiltered-zero" {
+					fake.answer[n] = plugintypes.NodeDeployCapacity{Capacity: c, Usage: float64(g2.intn(101)) / 100, Rate: float64(g2.intn(101)) / 100, Weight: []float64{1, 2, 100}[g2.intn(3)]}
+					if c == 0 {
+						unfilteredZero = true
+					}
+				}
+			}
+			req := resourcetypes.Resources{pluginName: opts}
+			// several calls: the merge order is the iteration order of a Go map
+			type answer struct {
+				res   map[string]*plugintypes.NodeDeployCapacity
+				total int
+			}
+			var answers []answer
+			distinct := map[string]bool{}
+			for k := 0; k < 8; k++ {
+				res, total, err := w2.mgr.GetNodesDeployCapacity(w2.ctx, names, req)
+				if err != nil {
+					checkInfra(err)
+					return // invalid request
+				}
+				key := fmt.Sprint(total)
+				for _, n := range names {
+					if v, ok := res[n]; ok {
+						key += "|" + n + coqFNdc(v)
+					}
+				}
+				if !distinct[key] {
+					distinct[key] = true
+					answers = append(answers, answer{res, total})
+				}
+			}
+			otherTerms, admitTerms := []string{}, []string{}
+			for _, n := range names {
+				if v, ok := fake.answer[n]; ok {
+					v := v
+					otherTerms = append(otherTerms, vh.Pair(str(n), coqFNdc(&v)))
+				}
+				admitTerms = append(admitTerms, vh.Pair(str(n), vh.Z(int64(fake.admit[n]))))
+			}
+			// one case per distinct answer of the manager; the probes are shared
+			infos := map[string]string{}
+			for _, n := range names {
+				capacity, usage, _ := w2.read(n, nil)
+				infos[n] = fmt.Sprintf("(mkNI %s %s)", coqNR(capacity), coqNR(usage))
+			}
+			for _, a := range answers {
+				nodeTerms := []string{}
+				nodeDesc := []any{}
+				offered := false
+				for _, n := range names {
+					obs := "None"
+					c := 0
+					if v, ok := a.res[n]; ok {
+						obs = vh.Some(coqFNdc(v))
+						c = v.Capacity
+						offered = true
+					}
+					counts := []int{}
+					if c == math.MaxInt64 {
+						counts = []int{1, 7}
+					} else {
+						for _, k := range []int{c - 1, c, c + 1, 1} {
+							if k >= 1 && k <= 400 {
+								counts = append(counts, k)
+							}
+						}
+					}
+					probes := []string{}
+					probeDesc := []any{}
+					for _, k := range counts {
+						ws, _, err := w2.mgr.Alloc(w2.ctx, n, k, req)
+						checkInfra(err)
+						if err == nil {
+							if rerr := w2.mgr.RollbackAlloc(w2.ctx, n, ws); rerr != nil {
+								checkInfra(rerr)
+								t.Fatalf("rollback: %v", rerr)
+							}
+						}
+						probes = append(probes, vh.Pair(vh.Z(int64(k)), vh.Bool(err == nil)))
+						probeDesc = append(probeDesc, map[string]any{"count": k, "accepted": err == nil})
+					}
+					nodeTerms = append(nodeTerms, fmt.Sprintf("(mkCapNode %s %s %s %s [])", str(n), infos[n], obs, vh.List(probes)))
+					nodeDesc = append(nodeDesc, map[string]any{"node": n, "reported": a.res[n], "other_admits": fake.admit[n], "probes": probeDesc})
+				}
+				term := fmt.Sprintf("(mkCapCase2 %s %s %s %s %s %s %s)", vh.Z(100), vh.Z(-1), coqReq(parseReq(opts)), vh.List(otherTerms), vh.List(admitTerms), vh.List(nodeTerms), vh.Z(int64(a.total)))
+				r2.Count("kind=" + kind)
+				r2.Count("request=" + reqKind)
+				r2.Count("other=" + otherKind)
+				r2.Count(fmt.Sprintf("distinct_answers=%d", len(answers)))
+				r2.Count(fmt.Sprintf("offered=%v", offered))
+				r2.Add(term, map[string]any{"request": opts, "other_plugin": otherKind, "nodes": nodeDesc, "total": a.total},
+					map[string]any{"kind": kind, "request": reqKind, "other": otherKind, "unfiltered_zero": unfilteredZero}, offered || otherKind == "empty")
+			}
+		})
+	}
+	mem300 := resourcetypes.RawParams{"memory-request": int64(300), "memory-limit": int64(300)}
+	// corpus: the second plugin has no capacity anywhere (the witness of seeded/C07-cobalt-merge-empty-first-answer),
+	// offers everything, offers a subset; a bound request; the ill-behaved zero entry
+	emit2("corpus", []nodeSpec{plain, small}, 0, mem300, "memory", "empty")
+	emit2("corpus", []nodeSpec{plain}, 1, mem300, "memory", "empty")
+	emit2("corpus", []nodeSpec{plain, small}, 0, mem300, "memory", "all")
+	emit2("corpus", []nodeSpec{plain, small, numa2}, 1, mem300, "memory", "some")
+	emit2("corpus", []nodeSpec{plain, numa2}, 1, resourcetypes.RawParams{"cpu-bind": true, "cpu-request": 1.0, "cpu-limit": 1.0, "memory-request": int64(100), "memory-limit": int64(100)}, "bound", "some")
+	emit2("corpus", []nodeSpec{plain, small}, 0, resourcetypes.RawParams{"cpu-request": 0.5, "cpu-limit": 0.5}, "unlimited", "all")
+	emit2("corpus", []nodeSpec{plain, small}, 0, mem300, "memory", "unfiltered-zero")
+	n2 := r2.N(40, 600)
+	for i := 0; i < n2; i++ {
+		specs := []nodeSpec{}
+		for k := 1 + g2.intn(3); k > 0; k-- {
+			specs = append(specs, g2.nodeSpec(100, g2.chance(0.6)))
+		}
+		opts, kind := g2.capRequest()
+		other := []string{"empty", "empty", "all", "all", "some", "some", "some", "unfiltered-zero"}[g2.intn(8)]
+		emit2("random", specs, g2.intn(3), opts, kind, other)
+	}
+	r2.Finish("the manager with cpumem and a second plugin answering from a table: no capacity on any node (empty answer), capacity on every node, on a random subset, or (ill-behaved) an entry with capacity 0; the capacity map is asked 8 times (merge order = Go map order), one case per distinct answer; Manager.Alloc probed with capacity-1, capacity, capacity+1 and 1 on every node (the second plugin admits a count iff it is within its capacity). non-trivial = a node is offered or the second plugin's answer is empty")
 }
